@@ -198,6 +198,15 @@ impl<'a, H: HashChain> InMemoryLmsSignature<'a, H> {
         })
     }
 
+    #[allow(clippy::len_without_is_empty)]
+    pub fn len(&self) -> usize {
+        4 + 4
+            + self.lmots_signature.signature_randomizer.len()
+            + self.lmots_signature.signature_data.len()
+            + 4
+            + self.authentication_path.len()
+    }
+
     pub fn get_path(&self, index: usize) -> &[u8] {
         let step = self.lms_parameter.get_hash_function_output_size();
         let start = step * index;
